@@ -29,3 +29,24 @@ from bounded import c17_class_refactorings as _b17
 bounded_check(name="c17-class-refactorings", fn=_b17.run_case, domain=_b17.domain, exhaustive=True,
               label="B3: encapsulate field on 19 usage shapes, introduce factory (3 client import styles x static/global, a string containing the factory name), method object, "
                     "local to field, use function (slices with omitted bounds, expressions): projects executed before and after")
+
+# ---- CPython cross-check: the exact specification evaluated on the real _RealFinder (wend / fnsc are the real scanners here) --------------
+def _xc_at_domain(tier, seed):
+    import itertools
+    alphabet = "x=+< " if tier != "thorough" else "x=+<! "
+    n = 5 if tier != "thorough" else 5
+    for k in range(1, n + 1):
+        for t in itertools.product(alphabet, repeat=k):
+            s = "x" + "".join(t)
+            yield s
+
+
+def _xc_at_build(s):
+    from rope.base import worder
+    f = worder._RealFinder(s, s)
+    return {"self": f, "offset": 0}
+
+
+bounded_check(name="c17-assignment-type-native", props=["C17"], contract="_RealFinder.get_assignment_type", build=_xc_at_build, domain=_xc_at_domain, exhaustive=True,
+              env={"wend": lambda f, o: f._find_word_end(o), "fnsc": lambda f, o: f._find_first_non_space_char(o)},
+              label="CPython cross-check: get_assignment_type's exact specification on every text `x` + <= 5 characters over {x,=,+,<,space} (thorough: also !)")
